@@ -201,6 +201,7 @@ type harnessEvidence struct {
 	Models        []string               `json:"models_used,omitempty"`
 	Notes         []string               `json:"notes,omitempty"`
 	KnownProbes   map[string]string      `json:"known_finding_probes,omitempty"`
+	CrossCheck    string                 `json:"cross_check,omitempty"`
 }
 
 func tierOf(h *HarnessCfg, tier string) *TierCfg {
@@ -402,6 +403,43 @@ func cmdCheck(args []string) int {
 		for _, c := range h.Covers {
 			if res.Covers[c] == 0 {
 				inconclusive = append(inconclusive, h.Name+": vacuous: cover label never reached: "+c)
+			}
+		}
+		// cross-check (thorough tier): the same exploration decided by a second solver must
+		// give the same path set and the same assertion verdicts
+		if *tier == "thorough" && len(res.Inconclusive) == 0 {
+			xt, base, scope := t, res, "thorough bounds"
+			if res.Paths > 30000 {
+				// too large to repeat: cross-check at the quick bounds instead
+				xt, scope = tierOf(h, "quick"), "quick bounds"
+				bcfg := mkConfig(xt, "quick", *workers)
+				bcfg.Redirect, bcfg.PureFns, bcfg.Known = cfg.Redirect, cfg.PureFns, cfg.Known
+				bcfg.Validate = 0
+				base = Explore(prog, fn, bcfg)
+			}
+			xcfg := mkConfig(xt, "quick", *workers)
+			xcfg.Redirect, xcfg.PureFns, xcfg.Known = cfg.Redirect, cfg.PureFns, cfg.Known
+			xcfg.Solver = "cvc5"
+			xcfg.Validate = 0
+			xcfg.TimeoutMs = 60000
+			xcfg.DeadlineSec = 1200
+			xres := Explore(prog, fn, xcfg)
+			res := base
+			_ = scope
+			same := xres.Paths == res.Paths && xres.Completed == res.Completed && len(xres.Violations) == len(res.Violations) && len(xres.Inconclusive) == 0
+			for l, a := range res.Asserts {
+				xa := xres.Asserts[l]
+				if xa == nil || xa.Held != a.Held || xa.Violated != a.Violated {
+					same = false
+				}
+			}
+			if len(xres.Inconclusive) > 0 {
+				he.CrossCheck = fmt.Sprintf("cvc5 1.0: inconclusive (%s) — not counted", strings.Join(xres.Inconclusive, "; "))
+			} else if same {
+				he.CrossCheck = fmt.Sprintf("cvc5 1.0 at the %s: identical (%d paths, %d queries, %.1fs solver time)", scope, xres.Paths, xres.Queries, xres.SolverTimeS)
+			} else {
+				he.CrossCheck = fmt.Sprintf("cvc5 1.0: DISAGREES (paths %d vs %d, violations %d vs %d)", xres.Paths, res.Paths, len(xres.Violations), len(res.Violations))
+				inconclusive = append(inconclusive, h.Name+": solver disagreement: "+he.CrossCheck)
 			}
 		}
 		pr := &pendingReplay{h: h, fn: fn, he: &he}
